@@ -112,7 +112,7 @@ func writeRecordConverter(td *dsl.RecordDefinition, w *formatting.IndentedWriter
 					fmt.Fprintf(w, "(\"%s\", self._%s_converter.overall_dtype()),\n", common.FieldIdentifierName(f.Name), common.FieldIdentifierName(f.Name))
 				}
 			})
-			fmt.Fprintf(w, "]))\n")
+			fmt.Fprintf(w, "], align=True))\n")
 
 		})
 		w.WriteStringln("")
